@@ -1,10 +1,36 @@
 import BFL.Driver.Proto
-/- Driver entries of this group (stub: no operation handled yet). -/
+import BFL.Model.Dir
+/-
+Driver entries for the directional statistics (C19), executed over `Float`.
+
+  dadd  r c a(r×c, column-major) b(r)   -> "ok" matrix (column-major)
+  dsub  r c a b                         -> "ok" matrix
+  dmean r c a w(c)                      -> "ok" branch vector(r)
+-/
 namespace BFL.DriverDir
-open BFL BFL.Proto
+open BFL BFL.Proto BFL.Dir
+
+def dadd (sub : Bool) : R String := do
+  let r ← nat; let c ← nat
+  let a ← matCM flt r c
+  let b ← vec flt r
+  done
+  let res := if sub then dirSub a b else dirAdd a b
+  pure (join ("ok" :: outMatCM floatStr res))
+
+def dmean : R String := do
+  let r ← nat; let c ← nat
+  let a ← matCM flt r c
+  let w ← vec flt c
+  done
+  let res := dirMean a w
+  pure (join ("ok" :: dirMeanBranch c :: outVec floatStr res))
 
 def handle (op : String) (args : List String) : Option String :=
   match op with
+  | "dadd" => some ((run (dadd false) args).getD "bad-args")
+  | "dsub" => some ((run (dadd true) args).getD "bad-args")
+  | "dmean" => some ((run dmean args).getD "bad-args")
   | _ => none
 
 end BFL.DriverDir
